@@ -7,7 +7,12 @@
 EXTENDS Naturals, Integers, Sequences, TLC, Json, IOUtils, Functions, SequencesExt
 VARIABLES st, l
 V == INSTANCE Visit
+\* "vdeep": a chain of n containers around one scalar (see the harness): by the traversal of Visit.tla a callback that
+\* always continues is called 2n+1 times and the result is 0; one that reports an error at the scalar is called n+1
+\* times and the result is -1 - for every n, however large
+DeepOk(r) == r.calls = 2 * r.n + 1 /\ r.ret = 0 /\ r.calls_err = r.n + 1 /\ r.ret_err = -1
 StepOfImpl(s, r) ==
+    IF r.e = "vdeep" THEN [ok |-> DeepOk(r), st |-> 0] ELSE
     LET t == r.nodes
         fin == FoldLeft(LAMBDA acc, c : V!RunStep(t, acc, c), V!AInit(t), r.calls)
     IN [ok |-> r.ncalls = Len(r.calls) /\ fin.mode = "done" /\ fin.res = r.ret, st |-> 0]
